@@ -2,4 +2,4 @@ Require Import ExtrOcamlBasic.
 Require Import Base.Bytes Net.Frame Net.Framed Net.Adaptor Net.Async Net.Concrete.
 Extraction Language OCaml.
 Definition x_decode m tab buf := decode tpacket (tparse tab) m buf.
-Extraction "model.ml" run_session write_all x_decode pong_frame encode_length decode_length announced run_adaptor run_adaptor_session awrite run_async run_conv run_aconv.
+Extraction "model.ml" run_session write_all reply_then_return x_decode pong_frame encode_length decode_length announced run_adaptor run_adaptor_session awrite run_async run_conv run_aconv.
